@@ -193,7 +193,30 @@ type vDirEntry struct{ vInfo }
 func (e vDirEntry) Type() fs.FileMode          { return 0 }
 func (e vDirEntry) Info() (fs.FileInfo, error) { return e.vInfo, nil }
 
+// read-fault injection (C13 dry-fault unit): the vReadFaultAt-th os.Open / os.Stat made while targets
+// run fails with an error that is not "does not exist" (EIO, EACCES, ENOTDIR)
+var (
+	vReadFaultAt   = -1
+	vReadFaultSeen int
+	vReadFaulted   bool
+)
+
+func vReadFault() bool {
+	if vInRun && vReadFaultAt >= 0 {
+		vReadFaultSeen++
+		if vReadFaultSeen-1 == vReadFaultAt {
+			vReadFaulted = true
+			vReach("read-faulted")
+			return true
+		}
+	}
+	return false
+}
+
 func vOpen(name string) (*os.File, error) {
+	if vReadFault() {
+		return nil, vErrT("input/output error")
+	}
 	if _, ok := vFS[name]; !ok {
 		return nil, vErrNotExist
 	}
@@ -203,6 +226,9 @@ func vOpen(name string) (*os.File, error) {
 }
 
 func vStat(name string) (os.FileInfo, error) {
+	if vReadFault() {
+		return nil, vErrT("input/output error")
+	}
 	n, ok := vFS[name]
 	if !ok {
 		return nil, vErrNotExist
